@@ -53,10 +53,10 @@ def verify(sid: str, run_tests=True):
             rc, out = sh([PY, demo], cwd=tmp, env=env, timeout=600)
             res["demo_with_patch"] = "fails (as intended)" if rc != 0 else "PASSES (not a demonstration)"
             if run_tests and not os.environ.get('SV_NO_TESTS'):
-                rc, out = sh([PY, "-m", "pytest", "-q", "-p", "no:cacheprovider", "--timeout=900", "-x", "-q"], cwd=tmp, env=env, timeout=1800)
+                rc, out = sh([PY, "-m", "pytest", "-q", "-p", "no:cacheprovider", "--timeout=900", "-x"], cwd=tmp, env=env, timeout=1800)
                 import re as _re
                 tail = [l for l in out.strip().splitlines() if _re.search(r"\d+ (passed|failed|error)", l)]
-                res["tests_with_patch"] = (tail[-1] if tail else out[-200:]) if rc == 0 else f"FAIL rc={rc}: " + (tail[-1] if tail else out[-300:])
+                res["tests_with_patch"] = ("pass: " + (tail[-1].strip("= ") if tail else "rc=0")) if rc == 0 else f"FAIL rc={rc}: " + (tail[-1] if tail else out[-300:])
             caught = {}
             env2 = dict(os.environ, SV_EVIDENCE_DIR=os.path.join(tmp, "ev"), SV_OUT_DIR=os.path.join(tmp, "out"))
             for pid in PIDS:
